@@ -119,6 +119,11 @@ def build_chain(ops, rec):
                 t = t.wrap(Element(op[1], **dict((k, v) for k, v in op[2])))
             else:
                 t = t.wrap(op[1])
+        elif name == 'wrapel':
+            from genshi.core import Stream as _S
+            t = t.wrap(Element(op[1], **dict((k, v) for k, v in op[2]))(_S(G.to_genshi(G.flatten(op[3])))))
+        elif name == 'attrfn':
+            t = t.attr(op[1], (lambda src: lambda name_, ev: ev[1][1].get(src))(op[2]))
         elif name == 'rename':
             t = t.rename(op[1])
         elif name == 'attr':
@@ -265,7 +270,7 @@ def oracle_chain(case, real=None):
         exp = G.spec_apply(doc, sel, selattrs, op)
         if exp is None:
             return None
-        if op[0] in ('remove', 'copy', 'cut', 'empty', 'unwrap', 'rename', 'attr'):
+        if op[0] in ('remove', 'copy', 'cut', 'empty', 'unwrap', 'rename', 'attr', 'attrfn'):
             if out != exp:
                 return fail(case, WHAT[op[0]], _short(exp), _short(out))
         else:
@@ -301,6 +306,8 @@ WHAT = {
     'rename': 'rename changes exactly the tag of the selected elements',
     'attr': 'attr sets/deletes the attribute on exactly the selected elements',
     'wrap': 'wrap encloses exactly each selection in the wrapper element',
+    'wrapel': 'wrap with an Element encloses exactly each selection in the wrapper (its children first)',
+    'attrfn': 'attr with a callable sets/deletes the attribute on exactly the selected elements',
     'replace': 'replace substitutes the content for exactly each selection',
     'before': 'before inserts the content in front of each selection and changes nothing else',
     'after': 'after inserts the content behind each selection and changes nothing else',
@@ -593,7 +600,7 @@ def valid_path(p):
         return False
 
 
-ARITY = {'select': 2, 'remove': 1, 'unwrap': 1, 'empty': 1, 'invert': 1, 'end': 1, 'buffer': 1, 'wrap': 3,
+ARITY = {'wrapel': 4, 'attrfn': 3, 'select': 2, 'remove': 1, 'unwrap': 1, 'empty': 1, 'invert': 1, 'end': 1, 'buffer': 1, 'wrap': 3,
          'replace': 2, 'before': 2, 'after': 2, 'prepend': 2, 'append': 2, 'rename': 2, 'attr': 3, 'copy': 3,
          'cut': 3, 'map': 2, 'substitute': 4, 'filter': 2}
 
@@ -628,6 +635,12 @@ def valid_case(case):
                         return False
                 if op[0] == 'wrap' and not (isinstance(op[1], str) and op[1].isalnum() and
                                             all(isinstance(x, list) and len(x) == 2 and x[0].isalnum() for x in op[2])):
+                    return False
+                if op[0] == 'wrapel' and not (isinstance(op[1], str) and op[1].isalnum() and valid_forest(op[3]) and
+                                              all(isinstance(x, list) and len(x) == 2 and x[0].isalnum() for x in op[2])):
+                    return False
+                if op[0] == 'attrfn' and not (isinstance(op[1], str) and op[1].isalnum() and
+                                              isinstance(op[2], str) and op[2].isalnum()):
                     return False
                 if op[0] == 'rename' and not (isinstance(op[1], str) and op[1].isalnum()):
                     return False
@@ -749,6 +762,10 @@ def w_op(i, op, rec):
         return Atom(n)
     if n == 'wrap':
         return [Atom('wrap'), ['', op[1]], [[['', k], v] for k, v in op[2]]]
+    if n == 'wrapel':
+        return [Atom('wrapel'), ['', op[1]], [[['', k], v] for k, v in op[2]], [w_event(e) for e in G.flatten(op[3])]]
+    if n == 'attrfn':
+        return [Atom('attrfn'), ['', op[1]], op[2]]
     if n in INJ:
         return [Atom(n), w_content(op[1])]
     if n == 'attr':
@@ -853,7 +870,7 @@ def gen_cases(rng, n):
     return cases
 
 
-DIRTY_EXCLUDED = ('remove', 'replace', 'wrap', 'cut', 'copy', 'filter')
+DIRTY_EXCLUDED = ('remove', 'replace', 'wrap', 'wrapel', 'cut', 'copy', 'filter')
 
 
 def in_theorem_class(ops):
